@@ -163,9 +163,12 @@ def families(seed, tier):
              op("stall", ep="X", cls="proto", on=False), op("pump", ms=600)])
     # the remote answers Accept after the opener's 10 s timeout; the opener retries while the leftover substream of that
     # late accept is being read: the retry is silently dropped
-    for i in range(4 if tier == "quick" else 24):
+    nlate = 4 if tier == "quick" else 24
+    if os.environ.get("VERIF_NOTIF_REPEAT", "").startswith("late-accept-retry="):
+        nlate = int(os.environ["VERIF_NOTIF_REPEAT"].split("=")[1])
+    for i in range(nlate):
         k = i % 8
-        add("late-accept-retry", cfg(0, perturb=i % 3),
+        add("late-accept-retry", cfg(0, perturb=i % 3, tq_ms=30000),
             [open_("X"), await_("Y", "asked"), await_("X", "answered", ms=15000), op("pump", ms=100), val("Y", "accept", wait=0)] +
             ([op("pump", ms=k)] if k else []) + [open_("X"), op("pump", ms=500)])
     # scenarios that wait for litep2p's compile-time timers (10 s negotiation): few in quick
@@ -295,9 +298,21 @@ TAGS = {"stale-shutdown-notice", "panic-after-stale-shutdown-notice", "report-ov
 MC_LINES = ["SPECIFICATION Spec", "INVARIANTS MonOK NoUnknownPanic QuiesceOK", "CHECK_DEADLOCK FALSE"]
 
 
-def mc_consts(auto=(), dial=False, mo=1, mcl=1, cut=0, rec=0, fail=0, sub=4, stall=0, tags=TAGS, moy=None, mut="none"):
+# recorded finding (signature in known_findings.txt) -> tag of the defect in NotifMC; a tag whose finding line is gone
+# (turned into `fixed:`) is modelled as repaired and is no longer tolerated
+SIG_TAG = {"open-ignored-during-leftover-substream-of-late-accept": "ignored-open-never-answered"}
+
+
+def fixed_tags():
+    known = load_known("C11")
+    return {tag for sig, tag in SIG_TAG.items() if sig not in known}
+
+
+def mc_consts(auto=(), dial=False, mo=1, mcl=1, cut=0, rec=0, fail=0, sub=4, stall=0, tags=None, moy=None, mut="none", fixed=None):
+    fixed = fixed_tags() if fixed is None else set(fixed)
+    tags = (TAGS if tags is None else set(tags)) - fixed
     return {"AutoSet": set(auto), "Dial": dial, "MaxOpen": mo, "MaxOpenY": mo if moy is None else moy, "MaxClose": mcl, "MaxCut": cut, "MaxRec": rec, "MaxFail": fail,
-            "MaxSub": sub, "MaxStall": stall, "KnownTags": set(tags), "Mut": mut}
+            "MaxSub": sub, "MaxStall": stall, "KnownTags": set(tags), "Mut": mut, "Fixed": fixed}
 
 
 def split_endpoints(lines):
